@@ -263,7 +263,9 @@ func (b *BlockList) readBlocklists() error {
 				return fmt.Errorf("error opening file: %w", err)
 			}
 
-			if err = b.parseHostFile(file); err != nil {
+			// The persisted local list is the in-memory list verbatim:
+			// reload every entry, including ones another entry covers.
+			if err = b.parseHostFile(file, filepath.Base(path) == "local"); err != nil {
 				_ = file.Close()
 				return fmt.Errorf("error parsing hostfile: %w", err)
 			}
@@ -287,7 +289,7 @@ func (b *BlockList) readBlocklists() error {
 	return nil
 }
 
-func (b *BlockList) parseHostFile(file *os.File) error {
+func (b *BlockList) parseHostFile(file *os.File, verbatim bool) error {
 	scanner := bufio.NewScanner(file)
 	for scanner.Scan() {
 		line := scanner.Text()
@@ -323,7 +325,7 @@ func (b *BlockList) parseHostFile(file *os.File) error {
 				break
 			}
 			canonical := dns.CanonicalName(n)
-			if !b.Exists(canonical) {
+			if verbatim || !b.Exists(canonical) {
 				b.set(canonical)
 			}
 		}
